@@ -33,6 +33,12 @@ Fixpoint boxdist2_l (l h : list ext) (q : list Z) : ext :=
   end.
 Definition boxdist2 (b : box) (q : list Z) : ext := boxdist2_l (lo b) (hi b) q.
 
+(* self.points while a query runs.  The constructor stores `np.array(points)` (a private copy) or, if it did not copy,
+   the caller's own array: then the queries would read whatever the caller has written into it since.
+   `at_build` = the points the tree was built from, `now` = what the caller's array holds at query time. *)
+Definition self_points (at_build now : list (list Z)) : list (list Z) :=
+  if ctor_copies_input then at_build else now.
+
 Section WithPoints.
   Variable P : list (list Z).            (* self.points *)
 
